@@ -23,7 +23,7 @@ open Via
 inductive Flavour where | tcp | ssl
 deriving Repr, DecidableEq
 
-inductive Policy where | sync | deferred | router | none
+inductive Policy where | sync | deferred | router | none | disc
 deriving Repr, DecidableEq
 
 inductive Err where
@@ -47,6 +47,9 @@ structure Opts where
   autodisc : Bool := false
   filter : Nat := 0            -- 0 = none installed / accept all, 1 = reject all, 2 = reject every second
   chunkedResp : Bool := false
+  onConnDisc : Bool := false     -- onconn=disc: the connected handler calls disconnect()
+  ansHs : Bytes := []            -- anshs=: header string of the scripted answer
+  ansOvl : Nat := 1              -- ansovl=: send overload of the scripted answer (0 no body, 1 container, 2 buffers)
   cfg : Cfg := {}
 deriving Repr
 
@@ -244,7 +247,8 @@ def httpEvent (fuel : Nat) (w : World) (i : Nat) (ev : Nat) : World :=
         let rx : RR := {}
         let w := w.upd i fun c => { c with httpAlive := true, inHttp := true, rx := rx, appKnows := true,
                                            connectedSeen := c.connectedSeen + 1 }
-        w.emit s!"ev connected {cn i}"
+        let w := w.emit s!"ev connected {cn i}"
+        if w.opts.onConnDisc then disconnectConn fuel w i else w
     else if !c.inHttp then w
     else if ev == 1 then
       if w.opts.senth || w.opts.chunkedResp then
@@ -358,7 +362,7 @@ end
 def appAnswer (fuel : Nat) (w : World) (i : Nat) : World :=
   let n := toString w.k
   if !w.opts.chunkedResp then
-    (httpSend fuel w i 200 (Enc.reasonPhrase 200) [] (str ("r" ++ n)) 1).1
+    (httpSend fuel w i 200 (Enc.reasonPhrase 200) w.opts.ansHs (str ("r" ++ n)) w.opts.ansOvl).1
   else
     let w := w.upd i fun c => { c with plan := c.plan ++ [.chunk (str ("a" ++ n)), .chunk (str ("b" ++ n)), .last] }
     (httpSend fuel w i 200 (Enc.reasonPhrase 200) (Enc.toHeaderId 5 (b!"Chunked")) [] 0).1
@@ -405,13 +409,15 @@ def requestHandler (fuel : Nat) (w : World) (i : Nat) : World :=
     let w := { w with k := w.k + 1 }
     if p == .sync then
       if c.rx.request.headers.isChunked && w.opts.chunkh then w else appAnswer fuel w i
+    else if p == .disc then disconnectConn fuel w i
     else w
 
 /-- `http_server::receive_handler`: the loop over one network read -/
 def receiveLoop (fuel : Nat) (w : World) (i : Nat) : Nat → Bytes → World
   | 0, _ => w
   | n + 1, buf =>
-    if buf.isEmpty then w
+    -- a handler may have disconnected the connection: nothing more is delivered for it (`is_held`)
+    if buf.isEmpty || !(w.get i).inHttp then w
     else
       let cfg := { w.opts.cfg with concatChunks := !w.opts.chunkh }
       let c := w.get i
@@ -481,7 +487,8 @@ def handshakeCallback (w : World) (i : Nat) (ok : Bool) : World :=
   else if ok then
     let w := w.upd i fun c => { c with connected := true }
     let w := commsEvent FUEL w i 0
-    enableReception w i
+    -- the connected handler may have disconnected the connection
+    if !(w.get i).shutdownSent then enableReception w i else w
   else
     let w := closeConn w i
     commsEvent FUEL w i 2
